@@ -79,8 +79,11 @@ CLAIMED = {
     "C40": dict(
         text="At addr.port(port) in Ftp::ParseProtoIpPort and Ftp::ParseIpPort the configuration-independent guards on every path give a port in "
              "[1,65535] (octets in [0,255], port = (p1<<8)+p2 > 0, all 6 fields converted; the EPSV port keeps strtol's full width until checked). "
-             "Found and repaired: ParseProtoIpPort accepted 0, 70000, 4294967317. Listing-parser memory safety is not decided.",
-        technique="guard-interval (GINT) from must-facts + narrowing-cast check on declared types",
+             "Ftp::Client::handleEpsvReply hands a port within [1,65535] to the data address; ParseIpPort returns true only with all six components in [0,255]; every "
+             "integer sscanf conversion in these parsers has a field width that cannot overflow its destination (no silent wrap before the range checks). "
+             "Found and repaired: ParseProtoIpPort accepted 0, 70000, 4294967317; handleEpsvReply accepted 70000 as 4464; ParseIpPort accepted wrapped and unchecked "
+             "components. Listing-parser memory safety is not decided.",
+        technique="guard-interval (GINT) from must-facts + narrowing-cast check on declared types + scanf format/destination-width analysis (LOSSY)",
         design="5/C40, 6(c)"),
     "C52": dict(
         text="Guard structure of both IncreaseSumInternal overloads on all paths (raw a+b only after a>=0, b>=0, !Less(max-a,b); unsigned result only "
@@ -155,7 +158,8 @@ CLAIMED = {
         text="Wiring of the blind relay: every copy/copyRead call uses one of the two mirrored (from,to,handler) triples with the byte count accepted "
              "by keepGoingAfterRead, copy() writes exactly from.buf/len, only copy() and the CONNECT-200 writer write to tunnel sockets, a buffer is "
              "read into only when empty and refilled only after its write was accounted in full, data is relayed only after a successful non-empty "
-             "read to an open peer, and on EOF/closure the peer is closed only when nothing is queued / no write is pending. Payload equality and "
+             "read to an open peer, and on EOF/closure the peer is closed only when nothing is queued / no write is pending; in clientProcessRequest the request-body machinery is unreachable for CONNECT (bytes after the header stay in "
+             "inBuf for the tunnel). Payload equality and "
              "ordering under segmentation are not decided.",
         technique="call-argument table (mirrored sibling directions) + whole-program who-calls/who-writes + CFG dominance/must-pass",
         design="5/C06"),
@@ -193,7 +197,8 @@ CLAIMED = {
              "pointer handed out by rawSpace()/bufEnd() happens only after cow()/rawSpace()/reAlloc()/reserve*() on all paths, or with store_->LockCount()==1 or "
              "canAppend() established; cow() returns without reallocating only for an exclusively owned blob; reAlloc installs a fresh blob; rawSpace hands out "
              "the tail only after canAppend() or cow(); MemBlob::append/appended/syncSize modify the blob only past their Must() guards. Equivalence with "
-             "std::string over histories is not decided.",
+             "std::string over histories is not decided. append/assign/Printf pin their source before any reallocation of the destination; operator=='s identity "
+             "fast path requires equal store, offset and length.",
         technique="store-write site enumeration over resolved member accesses + must-pass/dominance facts per site",
         design="5/C48"),
     "C45": dict(
@@ -214,7 +219,8 @@ CLAIMED = {
         text="For every path of the four inner-node doMatch() functions, Tree's action lookups and the checklist match/resume/implicit-answer functions: a rule counts as "
              "mismatched only when its child mismatched while the checklist could keep matching (a suspended or failed child yields -1); the winning action is the one at the "
              "matched rule's index; suspension records a breadcrumb and resumption continues from it; the implicit answer is the exact reversal table and is computed only for "
-             "an unfinished, idle check. Equality with a reference evaluator over all rule lists is not decided.",
+             "an unfinished, idle check; the async retry budget is reset per visited tree position and refuses a lookup only at the same position. "
+             "Equality with a reference evaluator over all rule lists is not decided.",
         technique="verdict tables checked against path-sensitive must-facts, RESPONSE/ORDER, reaching-value tracking, structural definition checks",
         design="5/C44"),
     "C61": dict(
@@ -227,7 +233,7 @@ CLAIMED = {
         text="For all paths of the HTTP/1 parser and its callers: a MIME block is accepted only below the limit the caller passed (Config.maxRequestHeaderSize / "
              "maxReplyHeaderSize); an over-limit block or request line always sets 601/414 and fails the parse; that failure always becomes an aborted request with "
              "parsed_ok == 0, an ERR_TOO_BIG 431/414 reply and no clientProcessRequest(); on the server side it becomes a status that can only end in fwd->fail(). "
-             "headersEnd/firstLineSize arithmetic and boundary behaviour under incremental arrival are not decided.",
+             "firstLineSize() counts every stored request-line component; boundary behaviour under incremental arrival is not decided.",
         technique="CFG dominance over normalised comparison atoms, RESPONSE chains parser -> client/server, call-argument provenance, who-calls/who-writes",
         design="5/C62"),
     "C20": dict(
